@@ -100,7 +100,9 @@ func compareIPs(x, y []byte) int {
 	addrX, okX := netip.AddrFromSlice(x)
 	addrY, okY := netip.AddrFromSlice(y)
 	if !okX || !okY {
-		panic("unexpected IP address byte slice")
+		// not an IP address (e.g. a received packet with an 8 or 12 byte
+		// host address): never equal
+		return 1
 	}
 	return addrX.Unmap().Compare(addrY.Unmap())
 }
